@@ -128,6 +128,12 @@ func raceShare(r *Rng) (*raceShared, error) {
 	}
 	b.Facts = append(b.Facts, Pred{Name: "resource", Terms: []Term{S("file1")}})
 	blocks := []Block{b, g.block(2, 1, 1)}
+	// 0-6 further blocks: the envelope's block list sits at various distances from a capacity
+	// boundary, so that concurrent Appends on the shared token would meet in the same slot if
+	// the list were extended in place
+	for i, d := 0, Pick(r, []int{0, 1, 1, 2, 3, 4, 5, 6}); i < d; i++ {
+		blocks = append(blocks, Block{Facts: []Pred{{Name: "p", Terms: []Term{S(fmt.Sprintf("extra%d", i))}}}})
+	}
 	tok, err := buildToken(blocks, r.Fork()) // goes through Serialize/Unmarshal: protobuf-allocated byte slices
 	if err != nil {
 		return nil, err
@@ -216,7 +222,7 @@ func raceWorkMain(args []string) {
 var raceFrameRe = regexp.MustCompile(`(?m)^\s+(\S*/repo/[^\s:]+\.go:\d+)`)
 
 func runC19(c *Ctx) {
-	c.Rule = "the harness is rebuilt with -race and re-executed as a child with GORACE=log_path: per mix one shared token (unmarshalled, so byte slices are protobuf-allocated; symbol table of 3/5-7/9-15 symbols so that clones have spare capacity), shared parsed check / policy / rule values and one shared parser.New(); G goroutines (8 quick / 16 thorough) each run a random sequence of {AuthorizerFor, Authorize on an own authorizer, Query, String, Code, GetBlockID with new symbols, CreateBlock+Add+Build+Append, Append, Seal, Serialize, RevocationIds, parser.Check on the shared parser} with GOMAXPROCS in 2..16. Violations: any data-race report whose stack touches /repo (file:line pairs recorded), or any goroutine result differing from the sequential result of the same operation. Non-trivial = every mix (distinct seeds, operation sequences and GOMAXPROCS); distinct = distinct mixes."
+	c.Rule = "the harness is rebuilt with -race and re-executed as a child with GORACE=log_path: per mix one shared token (unmarshalled, so byte slices are protobuf-allocated; symbol table of 3/5-7/9-15 symbols and 2-8 blocks so that clones and block lists have spare capacity), shared parsed check / policy / rule values and one shared parser.New(); G goroutines (8 quick / 16 thorough) each run a random sequence of {AuthorizerFor, Authorize on an own authorizer, Query, String, Code, GetBlockID with new symbols, CreateBlock+Add+Build+Append, Append, Seal, Serialize, RevocationIds, parser.Check on the shared parser} with GOMAXPROCS in 2..16. Violations: any data-race report whose stack touches /repo (file:line pairs recorded), or any goroutine result differing from the sequential result of the same operation. Non-trivial = every mix (distinct seeds, operation sequences and GOMAXPROCS); distinct = distinct mixes."
 	mixes, gor, ops := 12, 8, 40
 	if c.Thorough {
 		mixes, gor, ops = 120, 16, 120
